@@ -158,7 +158,7 @@ func loadC13Corpus() {
 
 func TestC13(t *testing.T) {
 	r, e := start(t, "C13",
-		"(0) exhaustively every file of one or two lexemes from a 46-entry vocabulary, with and without a final line break; (a) byte strings built from a dictionary of keywords, operators, quotes, comment markers, control and non-UTF-8 bytes; (b) token soup from the token vocabulary; (c) near misses: 1-2 token deletions, insertions, duplications, replacements and swaps applied to valid programs (the suite's sources, examples, std/*.tsh, generated programs); (d) import graphs over <= 4 files with every kind of edge (self-import, 2- and 3-cycles, missing files, directories, invalid imported files), main path missing or a directory. Each input is transpiled for both targets in a child worker process. Oracle: (script, nil) or (\"\", non-empty error); no panic, no worker death, no run beyond 60 s. Non-trivial = inputs that pass the lexer (they reach parser/transpiler code); distinct by input bytes.",
+		"(0) exhaustively every file of one or two lexemes from a 46-entry vocabulary, with and without a final line break; (0b) every typed position of C06's table x every offered type and shape (totality only); (a) byte strings built from a dictionary of keywords, operators, quotes, comment markers, control and non-UTF-8 bytes; (b) token soup from the token vocabulary; (c) near misses: 1-2 token deletions, insertions, duplications, replacements, swaps and operand re-shapings (an operand parenthesised, indexed, sliced, turned into a call, a literal slice or a builtin result) applied to valid programs (the suite's sources, examples, std/*.tsh, generated programs); (d) import graphs over <= 4 files with every kind of edge (self-import, 2- and 3-cycles, missing files, directories, invalid imported files), main path missing or a directory. Each input is transpiled for both targets in a child worker process. Oracle: (script, nil) or (\"\", non-empty error); no panic, no worker death, no run beyond 60 s. Non-trivial = inputs that pass the lexer (they reach parser/transpiler code); distinct by input bytes.",
 		[]string{"a hang is decided by a 20 s watchdog, confirmed once in a fresh worker with 60 s (normal inputs take < 50 ms)", "super-linear slowness on inputs far larger than 2 KiB is not explored"})
 	defer r.Flush()
 	defer c13Pool.Close()
@@ -230,6 +230,34 @@ func TestC13(t *testing.T) {
 		r.SetExtra("n_tiny_inputs", 2*len(inputs))
 	}
 
+	// every typed position of the grammar x every offered type and expression shape (the table of C06, top-level context):
+	// here only totality counts - whatever is offered, the answer is a script or an error
+	{
+		idx := 0
+		for _, p := range c06Positions() {
+			for _, o := range c06Offers {
+				if p.only != nil && !p.only(o) {
+					continue // the same filter as in C06 keeps the programs meaningful for that position
+				}
+				idx++
+				if !e.Mine(idx) {
+					continue
+				}
+				src := c06Build(p, o, c06Contexts[0])
+				c := totalCase{Kind: "total", Property: "C13", FilesHex: map[string]string{"main.tsh": hexEnc(src)}, Main: "main.tsh", Note: "typed-position"}
+				r.Eval()
+				r.Class("typed-position")
+				if kind, msg, _ := checkTotal(c); kind != "" {
+					if kind == "harness" {
+						r.HarnessError("%s", msg)
+						return
+					}
+					r.Violate(rep.Sig{"kind": kind, "input": "typed-position", "position": p.id, "shape": o.shape}, fmt.Sprintf("position %q offered %s (%s): %s", p.id, otyNames[o.ty], o.text, msg), c)
+				}
+			}
+		}
+	}
+
 	gcfg := gen.Cfg{MaxStmts: 12, MaxDepth: 3, ExprDepth: 3, Funcs: true, MaxFuncs: 2, Slices: true, StrOps: true, LoopBudget: 8, IO: true, Panics: true, ErrSpell: true, BareExpr: true}
 	checkRapid(t, r, func(t *rapid.T) {
 		family := gen.Uniform(0, 9).Draw(t, "family")
@@ -275,7 +303,17 @@ func TestC13(t *testing.T) {
 			ops := []string{}
 			for k := 0; k < nedit && len(toks) > 0; k++ {
 				i := gen.Uniform(0, len(toks)-1).Draw(t, "pos")
-				switch op := []string{"delete", "insert", "duplicate", "replace", "swap", "truncate"}[gen.Uniform(0, 5).Draw(t, "edit")]; op {
+				switch op := []string{"delete", "insert", "duplicate", "replace", "swap", "truncate", "operand-shape", "operand-shape"}[gen.Uniform(0, 7).Draw(t, "edit")]; op {
+				case "operand-shape":
+					// an operand gets another SHAPE (code that expects "a plain variable here" must answer with an error):
+					// parenthesised, indexed, sliced, a call, a slice literal, a builtin result
+					for tries := 0; tries < 8 && toks[i].Type != lexer.IDENTIFIER && toks[i].Type != lexer.NUMBER_LITERAL && toks[i].Type != lexer.STRING_LITERAL; tries++ {
+						i = gen.Uniform(0, len(toks)-1).Draw(t, "pos-operand")
+					}
+					txt := toks[i].Text
+					forms := []string{"(" + txt + ")", "((" + txt + "))", txt + "[0]", txt + "[0:1]", txt + "()", "zzf(" + txt + ")", "[]int{}", "[]string{" + txt + "}", "len(" + txt + ")", "itoa(" + txt + ")", "!" + txt, "-" + txt, txt + "." + txt, "@" + txt + "()", "nil", "copy(" + txt + ", " + txt + ")", "input()", "read(" + txt + ")"}
+					toks[i] = lexref.Tok{Type: lexer.IDENTIFIER, Text: forms[gen.Uniform(0, len(forms)-1).Draw(t, "shape")]}
+					ops = append(ops, op)
 				case "delete":
 					toks = append(toks[:i], toks[i+1:]...)
 					ops = append(ops, op)
